@@ -16,4 +16,19 @@ CHECKS = {
         "design_ref": "DESIGN.md section 2 C01 + appendix A.1",
         "sanitizer": ["miri"],
     },
+    "C02": {
+        "bin": "c02",
+        "level": "exploration",
+        "technique": "runtime monitoring: independent cash-flow ledger (conservation / exactly-when / per-position flows) evaluated after every fill on the real PositionManager and Engine, plus offline exact-rational re-check of the recorded log",
+        "rule": "case = one generated fill sequence (1-60 fills; random / trend / alternating / accumulate-unwind sides; boosted exact closes, flips and partial reductions; tiny, normal, huge and mixed quantities; zero, proportional and arbitrary fees) applied to PositionManager::update_from_trade and, for every second sequence, also through Engine::process(Account(Trade)); non-trivial = at least 3 fills and at least 2 different transition kinds among open/increase/reduce/close/flip; distinct = FNV-1a hash of the fill list",
+        "assumptions": [
+            "price > 0, quantity > 0, fee >= 0 with at most 8 decimal places (fees up to 20); prices of one sequence lie within a factor 1e4 and fees <= half the notional, so that the tear-sheet *return* statistics fed by closed positions stay inside Decimal's range (a 1e15-fold price move overflows them; that panic is in the statistics, outside this statement)",
+            "rounding budget eps = (n+1)*(1e-25 + 1e-23*gross_cash + 1e-26*sum_quantity) for rust_decimal's 28-digit arithmetic; exact equality is required for net quantity, emission of exit records, remainders and ids",
+        ],
+        "level_text": "After every fill of every sequence an independent ledger decides: open side/size == sign/|net|, exit record iff net reaches or crosses zero, closed-position PnL == that position's own cash flows (flip fill split by quantity, fee pro rata), global conservation identity, fee totals, trade-id bookkeeping, engine audit == unit path; a sample of the sequences is re-checked offline with exact rationals. Exploration over 2e4 (quick) / 4e5 (thorough) sequences.",
+        "level_note": "Trusts the ledger model and the stated rounding budget; magnitudes outside the generated domain (Decimal overflow) are not covered.",
+        "design_ref": "DESIGN.md section 2 C02",
+        "oracle": "c02_pnl.py",
+        "sanitizer": ["miri"],
+    },
 }
